@@ -1,4 +1,5 @@
 import Blots.Lemmas.PrattRoundTrip
+import Blots.Lemmas.IdentLemmas
 /-
   C10 — the precedence table, and the round trip between the printer's parenthesisation
   rule and the Pratt parser.
@@ -13,6 +14,14 @@ import Blots.Lemmas.PrattRoundTrip
     operand is parenthesised;
   * `NoInvert e`: no `.un .invert` node (the parser has no rule that produces it).
   Every fact about the tables is re-established by evaluation whenever they are regenerated.
+
+  Names (second part of the file): `Blots.Ident` (Model/Ident.lean) is a character-level PEG
+  model of the grammar rules `identifier`, `identifier_rest`, `reserved_word`, `bool`, `null`,
+  `input_reference` and of the ordered choice `term` on a one-word input; the reserved words
+  are the GENERATED `Gen.grammarReserved` in grammar order, the rule texts are pinned by the
+  translator.  `IdentShape w`: nonempty, first character an ASCII letter or `_`, all
+  characters ASCII letters, digits or `_`.  `Boundary rest`: `rest` is empty or starts with
+  a character that is not one of those.
 -/
 namespace Blots.C10
 open Blots.PrattRT
@@ -152,5 +161,131 @@ example : Fits (.bin .mul a b) (bp .add) [.inf "subtract", .prim c] :=
 /-- `.un .invert` really has to be excluded: the printer's `~` has no prefix rule -/
 example : prattParse (items (.un .invert a)) = none := by rfl
 end examples
+
+/-! ### names: the identifier rule at character level -/
+
+section names
+open Blots.Ident
+
+/-- Every identifier-shaped word that is not a reserved word is consumed WHOLE by the
+    `identifier` rule, and the one-word program `w` is an identifier term (the `bool`,
+    `null`, `input_reference` alternatives tried before `identifier` in `term` all fail).
+    All words, no bound on the length. -/
+theorem ident_usable (w : List Char) (hw : IdentShape w)
+    (hr : String.ofList w ∉ Gen.grammarReserved) :
+    identifier w = some [] ∧ termWord w = .ident := by
+  have hnot : w ∉ reservedLits := fun h => hr (mem_reservedLits.mp h)
+  have h1 := identifier_run (rest := []) hw hnot rfl
+  have h2 := termStart_run (rest := []) hw hnot rfl
+  simp only [List.append_nil] at h1 h2
+  exact ⟨h1, by simp [termWord, h2]⟩
+
+/-- Every word of the grammar's `reserved_word` list is refused by `identifier` (in
+    particular: no EARLIER alternative of the ordered choice is a proper prefix of a later
+    one, which would let the later word through), and as a one-word program it is the
+    literal `true` / `false` / `null` or does not parse. -/
+theorem reserved_refused : ∀ s ∈ Gen.grammarReserved,
+    identifier s.toList = none ∧
+    termWord s.toList =
+      (if s = "true" then .bool true else if s = "false" then .bool false
+       else if s = "null" then .null else .reserved) := by
+  decide +kernel
+
+/-- For identifier-shaped words the classification is exact: an identifier term iff not
+    reserved. -/
+theorem ident_iff_not_reserved (w : List Char) (hw : IdentShape w) :
+    termWord w = .ident ↔ String.ofList w ∉ Gen.grammarReserved := by
+  constructor
+  · intro h hmem
+    have := (reserved_refused _ hmem).2
+    rw [String.toList_ofList, h] at this
+    split at this
+    · cases this
+    · split at this
+      · cases this
+      · split at this <;> cases this
+  · exact fun h => (ident_usable w hw h).2
+
+/-- A reserved word followed by more identifier characters (`trueish`, `nullable`, `iffy`,
+    `do_it`, `outputs`, `notx`, `or_else`, `and1`) is a usable name, as long as the longer
+    word is not itself in the list. -/
+theorem prefix_of_reserved_is_usable (r : String) (t : List Char)
+    (hr : r ∈ Gen.grammarReserved) (ht : ∀ x ∈ t, isIdentChar x = true)
+    (hnot : String.ofList (r.toList ++ t) ∉ Gen.grammarReserved) :
+    identifier (r.toList ++ t) = some [] ∧ termWord (r.toList ++ t) = .ident :=
+  ident_usable _ (IdentShape.append (reserved_identShape r hr) ht) hnot
+
+/-- … and so is a reserved word preceded by identifier characters (`_if`, `xor`, `a_do`). -/
+theorem suffix_of_reserved_is_usable (r : String) (p : List Char)
+    (hr : r ∈ Gen.grammarReserved) (hp : IdentShape p)
+    (hnot : String.ofList (p ++ r.toList) ∉ Gen.grammarReserved) :
+    identifier (p ++ r.toList) = some [] ∧ termWord (p ++ r.toList) = .ident :=
+  ident_usable _ (IdentShape.append hp (reserved_identShape r hr).all) hnot
+
+/-- Maximal munch: in front of anything that does not start with an identifier character
+    (end of input, space, operator, bracket, …) `identifier` consumes exactly the word, and
+    the `term` choice takes the identifier alternative. -/
+theorem identifier_is_maximal_munch (w rest : List Char) (hw : IdentShape w)
+    (hr : String.ofList w ∉ Gen.grammarReserved) (hb : Boundary rest) :
+    identifier (w ++ rest) = some rest ∧ termStart (w ++ rest) = some (.ident, rest) := by
+  have hnot : w ∉ reservedLits := fun h => hr (mem_reservedLits.mp h)
+  exact ⟨identifier_run hw hnot hb, termStart_run hw hnot hb⟩
+
+/-- `#name`: `input_reference` has NO reserved-word look-ahead — every identifier-shaped word,
+    reserved or not, is consumed whole after `#`, and `#w` is an input-reference term. -/
+theorem input_reference_is_maximal_munch (w rest : List Char) (hw : IdentShape w)
+    (hb : Boundary rest) :
+    inputReference ('#' :: (w ++ rest)) = some rest ∧
+    termStart ('#' :: (w ++ rest)) = some (.input, rest) ∧ termWord ('#' :: w) = .input := by
+  refine ⟨inputReference_run hw hb, termStart_input_run hw hb, ?_⟩
+  have h := termStart_input_run (rest := []) hw rfl
+  simp only [List.append_nil] at h
+  simp [termWord, h]
+
+/-! #### examples (non-vacuity) -/
+
+example : IdentShape "trueish".toList ∧ String.ofList "trueish".toList ∉ Gen.grammarReserved := by
+  decide +kernel
+example : termWord "trueish".toList = .ident := (ident_usable _ (by decide) (by decide +kernel)).2
+example : termWord "nullable".toList = .ident := (ident_usable _ (by decide) (by decide +kernel)).2
+example : termWord "iffy".toList = .ident := (ident_usable _ (by decide) (by decide +kernel)).2
+example : termWord "do_it".toList = .ident := (ident_usable _ (by decide) (by decide +kernel)).2
+example : termWord "outputs".toList = .ident := (ident_usable _ (by decide) (by decide +kernel)).2
+example : termWord "notx".toList = .ident := (ident_usable _ (by decide) (by decide +kernel)).2
+example : termWord "or_else".toList = .ident := (ident_usable _ (by decide) (by decide +kernel)).2
+example : termWord "and1".toList = .ident := (ident_usable _ (by decide) (by decide +kernel)).2
+example : termWord "_if".toList = .ident := (ident_usable _ (by decide) (by decide +kernel)).2
+/-- case matters -/
+example : termWord "If".toList = .ident := (ident_usable _ (by decide) (by decide +kernel)).2
+example : termWord "_".toList = .ident := (ident_usable _ (by decide) (by decide +kernel)).2
+/-- through the corollaries: `"true" ++ "ish"`, `"_" ++ "if"` -/
+example : termWord ("true".toList ++ "ish".toList) = .ident :=
+  (prefix_of_reserved_is_usable "true" "ish".toList (by decide +kernel) (by decide) (by decide +kernel)).2
+example : termWord ("_".toList ++ "if".toList) = .ident :=
+  (suffix_of_reserved_is_usable "if" "_".toList (by decide +kernel) (by decide) (by decide +kernel)).2
+/-- the model agrees by plain evaluation, and really distinguishes the classes -/
+example : termWord "trueish".toList = .ident ∧ termWord "true".toList = .bool true ∧
+    termWord "false".toList = .bool false ∧ termWord "null".toList = .null ∧
+    termWord "if".toList = .reserved ∧ termWord "output".toList = .reserved ∧
+    identifier "output".toList = none ∧ identifier "outputs".toList = some [] := by decide +kernel
+/-- not identifier-shaped: digit first, non-ASCII letter, empty -/
+example : ¬ IdentShape "1a".toList ∧ ¬ IdentShape "é".toList ∧ ¬ IdentShape [] ∧
+    termWord "1a".toList = .reserved ∧ termWord "aé".toList = .reserved ∧
+    termWord [] = .reserved := by decide +kernel
+/-- maximal munch in context: `iffy+1`, `notx (`, and the keyword case it must not swallow:
+    `if x` is not an identifier followed by ` x` -/
+example : identifier "iffy+1".toList = some "+1".toList ∧
+    identifier "notx (".toList = some " (".toList ∧ identifier "if x".toList = none ∧
+    identifier "ifx y".toList = some " y".toList := by decide +kernel
+example : Boundary "+1".toList ∧ Boundary [] ∧ ¬ Boundary "x".toList := by decide
+/-- `#if`, `#true` are input references -/
+example : termWord "#if".toList = .input ∧ termWord "#true".toList = .input ∧
+    termWord "#1".toList = .reserved ∧ termWord "#".toList = .reserved := by decide +kernel
+/-- The PEG hazard `reserved_refused` guards against: an ordered choice listing a word AFTER
+    one of its proper prefixes never reaches it, so the longer word would pass as a name. -/
+example : keyword ["do".toList, "done".toList] "done".toList = none ∧
+    keyword ["done".toList, "do".toList] "done".toList = some ("done".toList, []) := by
+  decide +kernel
+end names
 
 end Blots.C10
